@@ -825,3 +825,14 @@ Print Assumptions C15_stat_exact_restarts.
 Print Assumptions C15_drain_restarts.
 Print Assumptions C15_over_limit_pinned_restarts.
 Print Assumptions C15_restart_always_opens.
+
+(* ================================================================== C11 with restarts *)
+(* the structural journal invariant of C11 holds in every state reachable by any history of
+   well-formed operations WITH restarts anywhere (any configuration at each restart, unflushed
+   bytes lost, cache limits arbitrary); update_state excluded *)
+Theorem C11_invariant_restarts : forall cfg ops res y,
+  forallb op_c15 ops = true -> Forall op_wf ops ->
+  run_case cfg ops = (res, Some y) -> journal_wf y.
+Proof.
+  intros cfg ops res y Hc Hw H. exact (JI_jw _ (proj1 (CI_run_case cfg ops res y Hc Hw H))).
+Qed.
